@@ -419,13 +419,13 @@ fn check_est(out: &mut Out, c: &EstCase) -> Option<(Value, Option<Vec<f64>>)> {
     let preds_v = match &preds {
         None => {
             out.fail(oracle, "predict returned Err for 1 <= k <= n", input);
-            return None;
+            return Some((state, preds));
         }
         Some(p) => p.clone(),
     };
     if preds_v.len() != c.queries.len() {
         out.fail(oracle, "wrong number of predictions", input);
-        return None;
+        return Some((state, preds));
     }
     let mut classes: Vec<f64> = c.y.clone();
     classes.sort_by(|a, b| a.partial_cmp(b).unwrap());
@@ -474,7 +474,7 @@ fn check_est(out: &mut Out, c: &EstCase) -> Option<(Value, Option<Vec<f64>>)> {
             expected.truncate(6);
             w["acceptable"] = json!(expected);
             out.fail(oracle, "prediction is not the weighted plurality class / weighted mean over any k-nearest set", w);
-            return None;
+            return Some((state, preds));
         }
     }
     Some((state, preds))
@@ -1087,13 +1087,13 @@ fn main() {
     }
 
     // ---- correspondence ----
-    for _ in 0..(if t { 200 } else { 40 }) {
+    for _ in 0..(if t { 400 } else { 60 }) {
         corr_heap(&mut out, &mut rng);
     }
-    for _ in 0..(if t { 100 } else { 20 }) {
+    for _ in 0..(if t { 200 } else { 30 }) {
         corr_heap_replace(&mut out, &mut rng);
     }
-    let ncd = if t { 160 } else { 36 };
+    let ncd = if t { 400 } else { 72 };
     for i in 0..ncd {
         let fam = FAMILIES[i % FAMILIES.len()];
         let n = match i % 12 {
@@ -1113,7 +1113,7 @@ fn main() {
         out.count(&format!("corr-data:family={}", fam));
         corr_dataset(&mut out, &mut rng, &m, &data, fam, 6);
     }
-    for i in 0..(if t { 120 } else { 30 }) {
+    for i in 0..(if t { 300 } else { 60 }) {
         let c = gen_est(&mut rng, 16, i % 2 == 0);
         if let Some((s, p)) = check_est(&mut out, &c) {
             corr_est(&mut out, &c, &s, &p);
@@ -1146,10 +1146,10 @@ fn main() {
         search_exhaustive(&mut out, &mut rng, 6, None);
     } else {
         search_exhaustive(&mut out, &mut rng, 5, Some(400));
-        search_exhaustive_six(&mut out, &mut rng, 400);
+        search_exhaustive_six(&mut out, &mut rng, 1200);
     }
     // random data sets over the quantifier's families
-    let nds = if t { 6000 } else { 700 };
+    let nds = if t { 60000 } else { 6000 };
     for i in 0..nds {
         let fam = FAMILIES[i % FAMILIES.len()];
         let n = match rng.below(10) {
@@ -1169,13 +1169,13 @@ fn main() {
         }
     }
     // estimators
-    for i in 0..(if t { 6000 } else { 700 }) {
+    for i in 0..(if t { 60000 } else { 6000 }) {
         let c = gen_est(&mut rng, if i % 5 == 0 { 120 } else { 30 }, i % 2 == 0);
         out.count(&format!("search:estimator:{}:{}:{}", if c.clf { "clf" } else { "reg" }, algo_name(c.cover), if c.distance_w { "distance" } else { "uniform" }));
         check_est(&mut out, &c);
     }
     // heap in isolation
-    for _ in 0..(if t { 20000 } else { 2000 }) {
+    for _ in 0..(if t { 200000 } else { 20000 }) {
         let k = rng.usize_in(1, 12);
         let len = rng.usize_in(1, 40);
         let lat = rng.bool();
